@@ -18,7 +18,7 @@ func init() {
 	register(&Property{
 		ID: "C13",
 		Meta: core.Meta{
-			Level: "other",
+			Level:       "other",
 			Explanation: "Structural part of C13: every exported text codec of packages conv and json is paired by name and by Go type (R13.1); each pair is reduced (SSA, same-package calls inlined, constants propagated through parameters) to its sequence of library calls, and the decoder's sequence must be the element-wise inverse of the encoder's with matching parameters: same base, bitSize not narrower than the Go type, same layout constant, same Unix unit, same parser family as the formatter (R13.2); every FormatFloat/AppendFloat uses shortest round-trip precision (-1) or ≥17/≥9 significant digits and a bitSize not narrower than the value (R13.3); fixed scratch buffers are wide enough for the widest output (R13.4); json.hexEncode writes each of its 36 output positions exactly once with the right nibble and hyphens at 8/13/18/23 (R13.5). The value-level round trip through strconv/time/netip/uuid/url themselves is NOT decided; those libraries are trusted to be inverse pairs as listed in the frozen inverse table.",
 			Assumptions: []string{
 				"frozen inverse table of std/third-party formatter↔parser pairs (strconv, time, net, netip, net/url, github.com/google/uuid, go-faster/jx)",
@@ -164,16 +164,16 @@ func isStringT(t types.Type) bool {
 
 // absStep is the abstract meaning of a library call.
 type absStep struct {
-	kind  string // int uint bool float time unix duration uuid mac addr url frame neutral
-	base  int64
-	bits  int64 // parse side: bitSize (0=int); format side (float): bitSize
-	fmtc  int64 // float format byte
-	prec  int64
+	kind   string // int uint bool float time unix duration uuid mac addr url frame neutral
+	base   int64
+	bits   int64 // parse side: bitSize (0=int); format side (float): bitSize
+	fmtc   int64 // float format byte
+	prec   int64
 	layout string
-	unit  string
+	unit   string
 	strict string // parser family detail
-	enc   bool
-	raw   step
+	enc    bool
+	raw    step
 }
 
 func cint(s step, i int) (int64, bool) {
